@@ -68,6 +68,8 @@ def pVal (kind : String) (j : Json) (depth : Nat := 0) : Except String Val :=
   | "ranked" => Val.ranked <$> pDict pBallot j
   | "score" => Val.score <$> pDict pScoreBallot j
   | "nested" => Val.nested <$> pNested j
+  | "nested_ranked" => Val.nestedR <$> (do (← pArr j).mapM (pPair pNat (pDict pBallot)))
+  | "nested_approval" => Val.nestedA <$> (do (← pArr j).mapM (pPair pNat (pDict pApproval)))
   | k => throw s!"unknown kind {k}"
 
 def pScorer (j : Json) : Except String Scorer := do
@@ -182,6 +184,8 @@ def valJson : Val → Json
   | .party d => dictJson pkeyJson d
   | .grouped d => Json.arr (d.map (fun kv => Json.arr #[pkeyJson kv.1, dictJson (fun (c : Cand) => toJson c) kv.2])).toArray
   | .nested d => Json.arr (d.map (fun kv => Json.arr #[toJson kv.1, dictJson (fun (c : Cand) => toJson c) kv.2])).toArray
+  | .nestedR d => Json.arr (d.map (fun kv => Json.arr #[toJson kv.1, dictJson ballotJson kv.2])).toArray
+  | .nestedA d => Json.arr (d.map (fun kv => Json.arr #[toJson kv.1, dictJson (fun s => setJson (s.map toJson)) kv.2])).toArray
   | .districts d => dictJson (fun (c : Nat) => toJson c) d
   | .deep t => ndictJson t
 
@@ -196,6 +200,8 @@ def mergeOk (depth : Nat) : Val → Val → Val → Bool
   | .ranked a, .ranked b, .ranked ab => decide (mergeDict (a ++ b) = ab)
   | .score a, .score b, .score ab => decide (mergeDict (a ++ b) = ab)
   | .nested a, .nested b, .nested ab => decide (mergeNested (a ++ b) = ab)
+  | .nestedR a, .nestedR b, .nestedR ab => decide (mergeNested (a ++ b) = ab)
+  | .nestedA a, .nestedA b, .nestedA ab => decide (mergeNested (a ++ b) = ab)
   | _, _, _ => false
 
 def handle (op : String) (j : Json) : Option (Except String Json) :=
